@@ -3,7 +3,7 @@
   Core Lean only.
 
   `asn1c_integer_t` is `__int128` in this build: edges carry unbounded `Int`; the two explicit
-  `INTMAX_MIN` / `INTMAX_MAX` tests of `_range_split` are kept.  The REAL "narrowing" field and the
+  `ASN_INTEGER_MIN` / `ASN_INTEGER_MAX` tests of `_range_split` ("We've hit the limit here") are kept.  The REAL "narrowing" field and the
   FROM (permitted alphabet) request type are not modelled (C09 is about INTEGER values and SIZE).
 
   One definition per C function:
@@ -61,8 +61,9 @@ def Range.new : Range := {}
 def Range.leaves (r : Range) : List Iv :=
   if r.els.isEmpty then [⟨r.left, r.right⟩] else r.els
 
-def INTMAX_MIN : Int := -9223372036854775808
-def INTMAX_MAX : Int := 9223372036854775807
+/-- the limits of `asn1c_integer_t` (`__int128`), asn1p_integer.h -/
+def ASN_INTEGER_MIN : Int := -170141183460469231731687303715884105728
+def ASN_INTEGER_MAX : Int := 170141183460469231731687303715884105727
 
 /-- the `assert(_edge_compare(l, r) <= 0)` of `_range_overlap` -/
 def Iv.ordered (i : Iv) : Bool := edgeCmp i.lo i.hi ≤ 0
@@ -87,13 +88,13 @@ def splitIv (ra rb : Iv) : Option (List Iv) :=
   let p1 : List Iv :=
     if ll < 0 then
       match rb.lo with
-      | .val v => if v == INTMAX_MIN then [] else [⟨ra.lo, .val (v - 1)⟩]
+      | .val v => if v == ASN_INTEGER_MIN then [] else [⟨ra.lo, .val (v - 1)⟩]
       | e => [⟨ra.lo, e⟩]
     else []
   let p2 : List Iv :=
     if rr > 0 then
       match rb.hi with
-      | .val v => if v == INTMAX_MAX then [] else [⟨.val (v + 1), ra.hi⟩]
+      | .val v => if v == ASN_INTEGER_MAX then [] else [⟨.val (v + 1), ra.hi⟩]
       | e => [⟨e, ra.hi⟩]
     else []
   let p3 : Iv := ⟨if edgeCmp ra.lo rb.lo < 0 then rb.lo else ra.lo,
@@ -252,6 +253,7 @@ structure Params where
   nkm : Bool := false
   strictOER : Bool := false     -- CPR_strict_OER_visibility
   strictPER : Bool := false     -- CPR_strict_PER_visibility
+  rootOnly : Bool := false      -- CPR_PER_root_only (passed by emit_member_PER_constraints)
 deriving Repr
 
 /-- outcome of `asn1constraint_compute_constraint_range` -/
@@ -294,6 +296,8 @@ def rangeOf (mm : Option Range) : Range :=
 /-- the ACT_EL_VALUE / ACT_EL_RANGE tail of the function -/
 def leaf (p : Params) (vmin vmax : V) (mm : Option Range) (range : Range) (ex : Bool) : Res × Bool :=
   if !ex then (.ok { range with incompat := true }, ex) else
+  -- FATAL "Empty range …: lower bound is greater than the upper bound" (literal end points only)
+  if (match vmin, vmax with | .num a, .num b => decide (a > b) | _, _ => false) then (.eperm, ex) else
   let r : Range := { Range.new with left := fillEdge vmin mm, right := fillEdge vmax mm }
   match mm with
   | none => (.ok (canonicalize r), ex)
@@ -310,8 +314,17 @@ def orStep (range : Range) : Res × Bool → Sum (Res × Bool) (Range × Bool)
     if tmp.incompat then .inl (.ok { canonicalize range with incompat := true }, ex')
     else if tmp.empty then
       .inr ({ range with ext := range.ext || tmp.ext, notOER := range.notOER || tmp.notOER }, ex')
+    else if range.empty then
+      -- "only empty sets were seen so far: the union starts with this one"
+      .inr (mergeIn { range with els := [], empty := false } tmp, ex')
     else .inr (mergeIn range tmp, ex')
   | (e, ex') => .inl (e, ex')
+
+/-- the `break` of the second loop: in an ACT_CA_CSV what follows the extension marker are the
+    extension additions, not PER-visible (X.691 10.3) -/
+def cutAtMarker (p : Params) (csv : Bool) : Res → Bool
+  | .erange => csv && (p.rootOnly || p.strictPER)
+  | _ => false
 
 /-- after the second loop: canonicalize; X.691 #9.3.19 under strict PER visibility -/
 def orFinish (p : Params) (range : Range) (mm : Option Range) (ex : Bool) : Res × Bool :=
@@ -346,8 +359,8 @@ def compute (p : Params) (ct : CT) (mm0 : Option Range) (ex : Bool) : Res × Boo
     else (.ok { range with incompat := true }, ex)
   | .set l => andLoop p true l range mm ex
   | .int l => andLoop p false l range mm ex
-  | .csv l => orFirst p l range mm ex
-  | .uni l => orFirst p l range mm ex
+  | .csv l => orFirst p true l range mm ex
+  | .uni l => orFirst p false l range mm ex
   | .exc l =>
     match l with
     | [] => (.abort, ex)
@@ -373,31 +386,35 @@ def andLoop (p : Params) (isSet : Bool) (l : List CT) (range : Range) (mm : Opti
 /-- first loop of the ACT_CA_CSV / ACT_CA_UNI case ("grab the first valid constraint").
     C leaves the index on the element it grabbed, so the second loop computes that element
     again (with the `*exmet` left by the first computation) before going on. -/
-def orFirst (p : Params) (l : List CT) (range : Range) (mm : Option Range) (ex : Bool) : Res × Bool :=
+def orFirst (p : Params) (csv : Bool) (l : List CT) (range : Range) (mm : Option Range) (ex : Bool) : Res × Bool :=
   match l with
   | [] => (.ok { range with incompat := true }, ex)
   | c :: rest =>
     match compute p c mm ex with
-    | (.erange, ex') => orFirst p rest { range with ext := true, notOER := true } mm ex'
+    | (.erange, ex') => orFirst p csv rest { range with ext := true, notOER := true } mm ex'
     | (.ok tmp, ex') =>
       if tmp.incompat then (.ok { range with incompat := true }, ex')
       else
         let r : Range := { tmp with ext := tmp.ext || range.ext,
                                     notOER := tmp.notOER || range.notOER,
                                     empty := tmp.empty || range.empty }
-        match orStep r (compute p c mm ex') with
-        | .inl out => out
-        | .inr (r', ex'') => orRest p rest r' mm ex''
+        let out := compute p c mm ex'
+        match orStep r out with
+        | .inl o => o
+        | .inr (r', ex'') =>
+          if cutAtMarker p csv out.1 then orFinish p r' mm ex'' else orRest p csv rest r' mm ex''
     | (e, ex') => (e, ex')
 
 /-- second loop ("merge with the rest of them") + the final canonicalisation -/
-def orRest (p : Params) (l : List CT) (range : Range) (mm : Option Range) (ex : Bool) : Res × Bool :=
+def orRest (p : Params) (csv : Bool) (l : List CT) (range : Range) (mm : Option Range) (ex : Bool) : Res × Bool :=
   match l with
   | [] => orFinish p range mm ex
   | c :: rest =>
-    match orStep range (compute p c mm ex) with
-    | .inl out => out
-    | .inr (r', ex') => orRest p rest r' mm ex'
+    let out := compute p c mm ex
+    match orStep range out with
+    | .inl o => o
+    | .inr (r', ex') =>
+      if cutAtMarker p csv out.1 then orFinish p r' mm ex' else orRest p csv rest r' mm ex'
 
 end
 
